@@ -223,6 +223,11 @@ fn random_history<E: Entry>(ctx: &mut Ctx, long: bool) {
         ctx.end_history();
         return;
     };
+    if (h / 6) % 2 == 1 {
+        // the region that read items are taken from holds other items too
+        let other = gen_pool::<E>(ctx, Dom::new(Kind::Hostile), 5);
+        live.prefill_aux(&other);
+    }
     let nforms = Live::<E>::nforms();
     let mut g = Growth { max_width: 0, rows: 0, weight: 0 };
     let mut rereads = 0u64;
